@@ -14,7 +14,7 @@ BUDGET = {'quick': 150, 'thorough': 1800}
 CHUNK = 2
 RULE = ('Cases: files of 2..8 samples (C07 sample styles, so that some k-mers are private to deleted samples); for n<=5 '
         'every non-empty proper subset is deleted (exhaustive over subsets), random subsets above; names given on the command '
-        'line or in a names file (one per line; with/without trailing newline; with blank lines between names, where a clean refusal is accepted as well as the exact deletion), in place, with -o, or with -o naming the input file itself.  A few files per run are large (up to ~100k rows, mostly private k-mers).  '
+        'line or in a names file (one per line; with/without trailing newline; with blank lines between names, where a clean refusal is accepted as well as the exact deletion), in place, with -o, or with -o naming the input file itself.  A few files per run are large (up to ~100k rows, mostly private k-mers), a few hold 257..260 samples from which deletions leave exactly 255, 256 and 257.  '
         'The result is compared with a `ska build` of the remaining samples (differential) and with the model, and every stored field of the two files (per-row counts, container lengths) is compared through the harness; a quarter of the files first pass through `ska weed --filter-ambig-as-missing` with a one-sample threshold (stored files with a history; model only).  A valid deletion whose -o target cannot be written (missing directory, path is a directory) must not exit 0 without a result, and leaves the input alone.  Refusal cases '
         '(unknown name, all names, all names with one of them repeated) must exit non-zero and leave the file byte-identical.  Non-trivial: at least one k-mer '
         'disappears or at least two non-adjacent columns are removed; distinct = distinct (k, mode, samples, subset, route).')
@@ -22,7 +22,7 @@ ASSUMPTIONS = ['sample names are [A-Za-z0-9_]+ ; a share of names end in .fa/.fa
                'the build of the remaining samples is a run of the same binary (differential); the model is independent']
 REQUIRED = {t: ['route:cli', 'route:file', 'route:file-no-trailing-newline', 'route:file-blank-lines', 'inplace', 'with-o',
                 'refuse:unknown', 'refuse:all', 'refuse:all-with-repeat', 'kmers_removed', 'nonadjacent_deletions', 'width64', 'width128', 'pretreated_files',
-                'stored_rows_compared', 'unwritable_output_refused', 'with-o-naming-the-input-file', 'refusals_with-o-naming-the-input-file', 'files_of_4096+_rows']
+                'stored_rows_compared', 'deletions_leaving_255..257_samples', 'unwritable_output_refused', 'with-o-naming-the-input-file', 'refusals_with-o-naming-the-input-file', 'files_of_4096+_rows']
             for t in ('quick', 'thorough')}
 
 
@@ -46,9 +46,13 @@ def plan(tier, seed, rng, scale):
         descs.insert(16 + 3 * i, {'k': rng.choice([15, 21, 31, 33, 41]), 'rc': rng.random() < 0.7, 'ns': rng.randint(3, 4), 'exhaustive': False,
                                   'large': rng.choice([1500, 2500, 6000, 12000, 25000] if tier == 'quick' else [1500, 6000, 12000, 25000, 40000, 70000]),
                                   'seed': rng.getrandbits(32)})
+    for i in range(int((3 if tier == 'quick' else 12) * max(scale, 0.34))):
+        # hundreds of samples, deletions that leave exactly 255 / 256 / 257: per-row tallies beyond one byte
+        descs.insert(20 + 4 * i, {'k': rng.choice([15, 31, 33]), 'rc': True, 'ns': [257, 258, 260][i % 3], 'exhaustive': False, 'crowd': True,
+                                  'seed': rng.getrandbits(32)})
     for i, d in enumerate(descs):
-        d['chk'] = (i % 7 == 0) and not d.get('large')
-        if i % 4 == 2 and not d.get('large'):
+        d['chk'] = (i % 7 == 0) and not d.get('large') and not d.get('crowd')
+        if i % 4 == 2 and not d.get('large') and not d.get('crowd'):
             d['pretreat'] = {2: '0.5', 3: '0.34', 4: '0.25', 5: '0.2', 6: '0.17', 7: '0.15', 8: '0.125'}[d['ns']]
     return descs
 
@@ -57,7 +61,15 @@ def run_case(desc, ctx):
     res = Result()
     k, rcmode, ns = desc['k'], desc['rc'], desc['ns']
     rng = random.Random(desc['seed'])
-    if desc.get('large'):
+    if desc.get('crowd'):
+        base = G.rseq(rng, 4 * k)
+        samples = []
+        for _ in range(ns):
+            t = list(base)
+            if rng.random() < 0.3:
+                t[rng.randrange(len(t))] = rng.choice('ACGT')
+            samples.append([''.join(t)] + ([G.rseq(rng, k + 2)] if rng.random() < 0.1 else []))
+    elif desc.get('large'):
         shared = G.rseq(rng, desc['large'] // 10)
         samples = [[G.rseq(rng, rng.randint(desc['large'] // 2, desc['large'])), shared] for _ in range(ns)]
     else:
@@ -86,6 +98,9 @@ def run_case(desc, ctx):
     res.count('width64' if k <= 31 else 'width128')
     if desc['exhaustive']:
         subsets = [list(c) for r in range(1, ns) for c in itertools.combinations(range(ns), r)]
+    elif desc.get('crowd'):
+        subsets = [sorted(rng.sample(range(ns), ns - left)) for left in (256, 255, 257) if ns - left >= 1]
+        res.count('deletions_leaving_255..257_samples', len(subsets))
     else:
         subsets = [sorted(rng.sample(range(ns), rng.randint(1, ns - 1))) for _ in range(2)]
     for variant in (['rel', 'chk'] if desc.get('chk') else ['rel']):
